@@ -67,7 +67,9 @@ def tagmode_module(name="MT5"):
         ("LC", {"k": "seqof", "con": None, "el": _ref("Ch", ("CONTEXT", 7, "EXPLICIT"))}),
         ("SE2", {"k": "seq", "ms": [("v", _ref("Inner", ("CONTEXT", 1, "EXPLICIT")), False)]}),
         ("NE", {"k": "seq", "ms": [("w", _ref("SE2", ("CONTEXT", 5, "EXPLICIT")), False), ("t", _ref("SE2", ("CONTEXT", 6, "EXPLICIT")), True)]}),
-        ("TE", _ref("In3", ("PRIVATE", 7, "EXPLICIT"))),
+        # (three tags: der_write_tags refuses a type with four — "System limit 4 on tags count" — so the value of a
+        # four-tag type cannot be re-encoded for comparison; the four-TL chains are the members e2 / e1 on In3)
+        ("TE", _ref("In2", ("PRIVATE", 7, "EXPLICIT"))),
     ]
     env = dict(defs)
     trees = {n: resolve(t, "IMPLICIT", env) for n, t in defs}
